@@ -188,11 +188,14 @@ def run(ctx):
         except Exception:
             pass    # refused: fine
 
-    # ---- networks: block diagonal
-    for _ in range(ctx.budget(3, 20)):
+    # ---- networks: block diagonal (critical shapes first: point neurons, trailing point neuron)
+    NETS = [[([-1], [1]), ([-1], [1]), ([-1], [1])], [([-1], [2]), ([-1], [1])], [([-1, 0], [1, 2]), ([-1], [1]), ([-1], [1])]]
+    for ni in range(ctx.budget(3, 20) + len(NETS)):
         k = rng.randint(2, 3)
         specs = []
-        for _c in range(k):
+        if ni < len(NETS):
+            specs = [simlib.rand_spec(rng, p, c) for p, c in NETS[ni]]
+        for _c in range(k if ni >= len(NETS) else 0):
             nb = rng.randint(1, 3)
             specs.append(simlib.rand_spec(rng, simlib.rand_parents(rng, nb), [rng.randint(1, 3) for _ in range(nb)]))
         dt = rng.choice([0.025, 10.0])
